@@ -882,6 +882,12 @@ class _ItemArrayHeaders(BaseNITFElement):
         if subhead_sizes.shape != item_sizes.shape or len(item_sizes.shape) != 1:
             raise ValueError(
                 'the subhead_offsets and item_offsets arrays must one-dimensional and the same length')
+        if subhead_sizes.size > 999:
+            raise ValueError('at most 999 entries can be announced by the three digit count. Got {}'.format(subhead_sizes.size))
+        if numpy.any(subhead_sizes > 10**self._subhead_len - 1) or numpy.any(subhead_sizes < 0):
+            raise ValueError('subheader sizes must be non-negative and at most {} digits'.format(self._subhead_len))
+        if numpy.any(item_sizes > 10**self._item_len - 1) or numpy.any(item_sizes < 0):
+            raise ValueError('item sizes must be non-negative and at most {} digits'.format(self._item_len))
 
         self.subhead_sizes = subhead_sizes
         """
